@@ -135,6 +135,8 @@ class Built:
 
         os.makedirs(directory, exist_ok=True)
         for name, data in self.files.items():
+            if "/" in name:  # clutter below the product directory (an earlier delivery kept in a subfolder, ...)
+                os.makedirs(os.path.join(directory, os.path.dirname(name)), exist_ok=True)
             with open(os.path.join(directory, name), "wb") as f:
                 f.write(data)
         return directory
